@@ -141,6 +141,36 @@ Theorem C12_update_accepts_only_parented : forall ord d t tb asg wh d' ev n,
 Proof. exact update_accepts_only_parented. Qed.
 Print Assumptions C12_update_accepts_only_parented.
 
+(** DROP TABLE of a table that another table's FOREIGN KEY references is refused and changes
+    nothing (repaired class drop-referenced-table; [C12_ri_step] now covers every DROP TABLE) *)
+Theorem C12_drop_referenced_rejected : forall d t tb,
+  get_table d t = Some tb -> referenced_by_other d t = true -> exec_drop d t = ((d, []), RErr EConstraint).
+Proof. exact drop_referenced_rejected. Qed.
+Print Assumptions C12_drop_referenced_rejected.
+
+Theorem C12_drop_keeps_ri : forall d t d' ev r,
+  inv d -> RI d -> exec_drop d t = ((d', ev), r) -> ev = [] /\ inv d' /\ RI d'.
+Proof. exact exec_drop_ok. Qed.
+Print Assumptions C12_drop_keeps_ri.
+
+(** a key declared out of column order, FOREIGN KEY (c2, c1) REFERENCES t0(c0, c1), is a standard key
+    now (repaired class fk-columns-out-of-order): the former witness satisfies the hypotheses of
+    [C12_ri_step], the valid row is accepted, the dangling one refused *)
+Theorem C12_fk_out_of_order_standard :
+  inv w10_db /\ RI w10_db
+  /\ known_class [0; 1] (SInsert 1 [[v 1; v 2; v 1]]) w10_db = false
+  /\ step_res [0; 1] w10_db (SInsert 1 [[v 1; v 2; v 1]]) = ROk 1
+  /\ step_res [0; 1] w10_db (SInsert 1 [[v 2; v 1; v 2]]) = RErr EConstraint.
+Proof. exact out_of_order_example. Qed.
+Print Assumptions C12_fk_out_of_order_standard.
+
+(** INSERT .. SELECT (bulk transfer or not) keeps RI: the rows are validated against the table as it
+    was before the statement and only then inserted *)
+Theorem C12_insert_select_keeps_ri : forall d dst src simple sel d' ev r,
+  inv d -> RI d -> exec_insert_select d dst src simple sel = ((d', ev), r) -> ev = [] -> inv d' /\ RI d'.
+Proof. exact exec_insert_select_ok. Qed.
+Print Assumptions C12_insert_select_keeps_ri.
+
 (* ---------------------------------------------------------------------------------------- *)
 (** ** Termination of the cascade recursion *)
 
@@ -214,22 +244,10 @@ Theorem C12_ri_step_refuted_self_ref_update : breaks_ri EvSelfRefPkUpdate [0] w7
 Proof. exact self_ref_update_witness. Qed.
 Print Assumptions C12_ri_step_refuted_self_ref_update.
 
-Theorem C12_ri_step_refuted_drop : breaks_ri EvDropReferenced [0; 1] w8_db (SDropTable 0).
-Proof. exact drop_witness. Qed.
-Print Assumptions C12_ri_step_refuted_drop.
-
 Theorem C12_ri_step_refuted_add_fk :
   breaks_ri EvAddFkUnchecked [0; 1] w9_db (SAddFk 1 (mkFk [1] 0 [0] ANoAction ANoAction)).
 Proof. exact add_fk_witness. Qed.
 Print Assumptions C12_ri_step_refuted_add_fk.
-
-Theorem C12_ri_step_refuted_fk_out_of_order :
-  ri_b w10_db = true /\ schema_standard w10_db = false /\
-  step_res [0; 1] w10_db (SInsert 1 [[v 1; v 2; v 1]]) = RErr EConstraint
-  /\ step_res [0; 1] w10_db (SInsert 1 [[v 2; v 1; v 2]]) = ROk 1
-  /\ ri_b (step_db [0; 1] w10_db (SInsert 1 [[v 2; v 1; v 2]])) = false.
-Proof. exact out_of_order_witness. Qed.
-Print Assumptions C12_ri_step_refuted_fk_out_of_order.
 
 Theorem C12_ri_step_refuted_non_pk_reference :
   ri_b w11_db = true /\ schema_standard w11_db = false /\
